@@ -7,6 +7,7 @@ The program text is symbolic: every position is a symbolic index into the token 
 """
 import sys, os
 _REPO = os.environ.get("VT_REPO", "/repo")
+from vt import world as _world
 from vt.world import enter, verdict, cfg, CFG, pick, cut
 from vt.symtext import SymText, ALPHA, SUB, install_re_proxy
 install_re_proxy()        # before klongpy is imported: a regex-based lexer must still run on symbolic text
@@ -35,7 +36,7 @@ class Budget(Exception):
     pass
 
 
-K = KlongInterpreter()
+K = _world.hoist(KlongInterpreter())
 CALLS = [0]
 LIMIT = [10 ** 9]
 _orig_kg_read = P.kg_read
